@@ -18,7 +18,7 @@ treehash() {
 }
 H=$(treehash)
 OUT=$CACHE/$H/$VARIANT-r2
-if [ -f "$OUT/.ok" ]; then echo "$OUT"; exit 0; fi
+if [ -f "$OUT/.ok" ]; then touch "$CACHE/$H" 2>/dev/null || true; echo "$OUT"; exit 0; fi
 mkdir -p "$CACHE/$H"
 exec 9>"$CACHE/$H/.lock.$VARIANT"
 flock 9
@@ -58,6 +58,8 @@ cp "$SCR"/config.h "$OUT.tmp/config.h"
 grep -E 'PACKAGE_VERSION|SNOOPY_CONF_(MESSAGE_FORMAT|FILTER_CHAIN|SYSLOG|OUTPUT_DEFAULT|CONFIGFILE_PATH|LIBDIR)' "$SCR"/config.h > "$OUT.tmp/config.summary" || true
 touch "$OUT.tmp/.ok"
 mv "$OUT.tmp" "$OUT"
-# keep the cache small: drop trees other than the 6 most recent
-ls -1dt "$CACHE"/*/ 2>/dev/null | tail -n +7 | xargs -r rm -rf
+# keep the cache small: of the trees not used for two hours, keep the 8 most recent
+# (never the tree being built, never one touched in the last two hours: other checks may be using it)
+touch "$CACHE/$H"
+find "$CACHE" -mindepth 1 -maxdepth 1 -type d -mmin +120 ! -name "$H" -print0 2>/dev/null | xargs -0 -r ls -1dt 2>/dev/null | tail -n +9 | xargs -r rm -rf
 echo "$OUT"
